@@ -62,8 +62,17 @@ fn main() {
     if not os.path.exists(lock):
         shutil.copy(os.path.join(vlib.REPO, "Cargo.lock"), lock)
     env = vlib.cargo_env()
-    env["CARGO_TARGET_DIR"] = os.path.join(vlib.CACHE, "cgb-target")
-    p = vlib.sh(["cargo", "build", "--offline"], cwd=CGB, env=env, check=False, timeout=3000)
+    env["CARGO_TARGET_DIR"] = os.path.join(vlib.CACHE, "cgb-target" + ("" if vlib.REPO == "/repo" else "-" + os.path.basename(vlib.TARGET)))
+    # the crate path-depends on /repo/lalrpop-util; a scratch tree given through VERIF_REPO (seeded-change
+    # trials) is substituted for the duration of the build only (the exclusive lock is held)
+    toml_path = os.path.join(CGB, "Cargo.toml")
+    toml = open(toml_path).read()
+    try:
+        if vlib.REPO != "/repo":
+            open(toml_path, "w").write(toml.replace('"/repo/', '"%s/' % vlib.REPO))
+        p = vlib.sh(["cargo", "build", "--offline"], cwd=CGB, env=env, check=False, timeout=3000)
+    finally:
+        open(toml_path, "w").write(toml)
     return p.returncode == 0, p.stdout, os.path.join(env["CARGO_TARGET_DIR"], "debug", "cgb")
 
 
